@@ -187,6 +187,55 @@ Symmetric == \A i \in 1..N :
                 /\ \A k \in 1..N : Image(Op(i), k) \in PlacementSet
 
 -----------------------------------------------------------------------------
+(* C03: the energy of the infinite crystal per molecule, for a pair energy *)
+(* that depends on the displacement of the two molecule centres only and   *)
+(* has finite support: W(d2) = max(0, cw - d2), d2 the squared distance in *)
+(* world units (an integer).  Every pair of distinct molecule images with  *)
+(* one member in the home cell is counted once: the sum over ordered       *)
+(* pairs (home copy, any other image) counts each unordered pair twice,    *)
+(* hence ProbeScore = -(1/N) * 1/2 * OrderedSum.  Operators are            *)
+(* parameterised by the site so that re-descriptions of the same crystal   *)
+(* can be compared.  (Centres only: use orientation index 1, Hh = 1.)      *)
+FracAt(k, x, y) == << Wrap(Op(k)[1] * x + Op(k)[2] * y + Op(k)[5] * (D \div 2)),
+                      Wrap(Op(k)[3] * x + Op(k)[4] * y + Op(k)[6] * (D \div 2)) >>
+ProbeKM(rw) == rw \div (D * by) + 2
+ProbeKN(rw) == (rw * (Abs(bx) + by)) \div (D * ax * by) + 2
+\* displacements (world units) from home copy k1 to every other image within the box |.| <= rw
+Displacements(x, y, rw) ==
+  UNION { LET dfx == FracAt(k2, x, y)[1] - FracAt(k1, x, y)[1]
+              dfy == FracAt(k2, x, y)[2] - FracAt(k1, x, y)[2]
+              ms == { m \in -ProbeKM(rw)..ProbeKM(rw) : Abs((dfy + m * D) * by) <= rw }
+          IN UNION { { <<k1, k2, n, m, (dfx + n * D) * ax + (dfy + m * D) * bx, (dfy + m * D) * by>> :
+                         n \in { n \in -ProbeKN(rw)..ProbeKN(rw) :
+                                   /\ Abs((dfx + n * D) * ax + (dfy + m * D) * bx) <= rw
+                                   /\ ~(k1 = k2 /\ n = 0 /\ m = 0) } } : m \in ms }
+          : k1 \in 1..N, k2 \in 1..N }
+Well(cw, dx, dy) == IF dx * dx + dy * dy < cw THEN cw - (dx * dx + dy * dy) ELSE 0
+RECURSIVE SumWell(_, _)
+SumWell(PP, cw) == IF PP = {} THEN 0
+                   ELSE LET p == CHOOSE q \in PP : TRUE IN Well(cw, p[5], p[6]) + SumWell(PP \ {p}, cw)
+\* sum over ordered pairs; ProbeScore = -OrderedSum / (2 N)
+OrderedSum(x, y, cw, rw) == SumWell(Displacements(x, y, rw), cw)
+\* number of ordered pairs inside the well (the coordination the sum sees)
+InWell(x, y, cw, rw) == Cardinality({ p \in Displacements(x, y, rw) : p[5] * p[5] + p[6] * p[6] < cw })
+
+(* Re-descriptions of the same crystal: another member of the orbit taken  *)
+(* as the site; the origin moved by half a lattice vector when that maps   *)
+(* the set of centres onto itself up to the same translation.               *)
+CentreSet(x, y) == { FracAt(k, x, y) : k \in 1..N }
+ShiftSet(PP, tx, ty) == { << Wrap(p[1] + tx), Wrap(p[2] + ty) >> : p \in PP }
+HalfShifts == { <<D \div 2, 0>>, <<0, D \div 2>>, <<D \div 2, D \div 2>> }
+\* <<x2, y2, kind>>
+Redescriptions ==
+  { <<FracAt(k, sx, sy)[1], FracAt(k, sx, sy)[2], "orbit">> : k \in 2..N } \cup
+  { <<sx + D, sy, "lattice">>, <<sx, sy - D, "lattice">> } \cup
+  { <<Wrap(sx + t[1]), Wrap(sy + t[2]), "origin">> : t \in
+       { t \in HalfShifts : CentreSet(sx + t[1], sy + t[2]) = ShiftSet(CentreSet(sx, sy), t[1], t[2]) } }
+\* the score is a property of the crystal, not of its description
+RedescriptionOK(cw, rw) == \A r \in Redescriptions :
+                             OrderedSum(r[1], r[2], cw, rw) = OrderedSum(sx, sy, cw, rw)
+
+-----------------------------------------------------------------------------
 (* The optimiser's moves on the grid.  Families: oblique cells may shear    *)
 (* and change the side ratio; rectangular cells keep bx = 0.                *)
 CONSTANTS GroupSet, ShapeSet, AxSet, BSet, SiteSet, OrientSet
